@@ -7,7 +7,7 @@
    false) describe those historical trees and are kept so that a regression of a repair has a proved
    description; everything else describes /repo as it stands or any cfg. *)
 From Coq Require Import ZArith List Bool Arith.
-From PAFC15 Require Import Model Proofs1 Proofs2 Proofs3 Witness.
+From PAFC15 Require Import Model Proofs1 Proofs2 Proofs3 Proofs4 Witness.
 Import ListNotations.
 
 (* ---- C15_sum: structure and value of a sum ---------------------------------------------------- *)
@@ -254,8 +254,67 @@ Proof. exact @folders_partial. Qed.
 Theorem C15_hist_folder_i_pool_refuted : exists (l : list nat) (cores : nat), folders false cores l <> folders_serial l.
 Proof. exact folders_refuted. Qed.
 
+(* ---- C15_repeated: the same analysis written more than once (a + b + a, (a + b) + (a + b), sum([c, c, c])) ---- *)
+
+(* the total counts every analysis once per OCCURRENCE: sum over the distinct analyses of count * likelihood *)
+Theorem C15_sum_multiplicity : forall (A X : Type) (dec : forall a b : A, {a = b} + {a <> b}) (ev : A -> X -> res) (x : X) (l : list A),
+  total ev l x = weighted dec ev x l (nodup dec l).
+Proof. exact @total_multiplicity. Qed.
+
+Theorem C15_serial_multiplicity : forall (A X : Type) (dec : forall a b : A, {a = b} + {a <> b}) (ev : A -> X -> res) (x : X) (l : list A),
+  existsb (raises ev x) l = false -> serial ev l x = RVal (weighted dec ev x l (nodup dec l)).
+Proof. exact @serial_multiplicity. Qed.
+
+Theorem C15_pool_multiplicity : forall (A X : Type) (dec : forall a b : A, {a = b} + {a <> b}) (ev : A -> X -> res) (x : X)
+    (drain : bool) (l : list A) (procs : list (list A)) (masks : list (list bool)) (qs : list (list res)),
+  concat procs = l -> concat qs = [] -> length qs = length procs -> existsb (raises ev x) l = false ->
+  exists qs', pool_call ev drain (length l) procs x masks qs = Some (RVal (weighted dec ev x l (nodup dec l)), qs').
+Proof. exact @pool_multiplicity. Qed.
+
+(* a sum over the de-duplicated analyses (a dict / set keyed by the analysis object) is the property only
+   when nothing is repeated ... *)
+Theorem C15_dedup_sum_partial : forall (A X : Type) (dec : forall a b : A, {a = b} + {a <> b}) (ev : A -> X -> res) (x : X) (l : list A),
+  NoDup l -> total ev (nodup dec l) x = total ev l x.
+Proof. exact @dedup_total_nodup. Qed.
+
+(* ... and is wrong for a + b + a *)
+Theorem C15_dedup_sum_refuted : exists (l : list nat) (x : unit),
+  total (fun (a : nat) (_ : unit) => RVal (Z.of_nat a)) (nodup Nat.eq_dec l) x
+  <> total (fun (a : nat) (_ : unit) => RVal (Z.of_nat a)) l x.
+Proof. exact dedup_total_refuted. Qed.
+
+(* /repo today: the combined analysis holds one member per written occurrence, in the order written,
+   with and without with_free_parameters *)
+Theorem C15_members_written : forall e : expr, nofree e = true -> is_leaf e = false ->
+  map item_id (items_of (eval cfg_now e)) = map fst (leaves e).
+Proof. exact members_written. Qed.
+
+Theorem C15_members_written_free : forall e : expr, nofree e = true -> is_leaf e = false ->
+  map item_id (items_of (eval cfg_now (Free e))) = map fst (leaves e).
+Proof. exact members_written_free. Qed.
+
+Theorem C15_member_multiplicity : forall (e : expr) (j : nat), nofree e = true -> is_leaf e = false ->
+  count_occ Nat.eq_dec (map item_id (items_of (eval cfg_now e))) j = count_occ Nat.eq_dec (map fst (leaves e)) j
+  /\ count_occ Nat.eq_dec (map item_id (items_of (eval cfg_now (Free e)))) j = count_occ Nat.eq_dec (map fst (leaves e)) j.
+Proof. exact member_multiplicity. Qed.
+
+(* free parameters of a sum of plain analyses: one copy per written occurrence, repetitions included *)
+Theorem C15_free_params_count_of_expr : forall (e : expr) (default : list nat) (own : list (list nat)) (free : list nat),
+  nofree e = true -> is_leaf e = false -> any_model (leaves e) = false ->
+  prior_count (fitted_models cfg_now (kind_of (eval cfg_now (Free e))) (items_of (eval cfg_now (Free e))) default own free)
+  = length (free_in free default) * length (leaves e) + length (shared_in free default).
+Proof. exact free_count_of_expr. Qed.
+
+(* the harness analyses of the correspondence modify themselves in place, once per position *)
+Theorem C15_inplace_modify_per_position : forall (d : Z) (its : list item) (it : item), In it its -> item_hm it = false ->
+  In (it, ((d * Z.of_nat (occurrences its it))%Z, Z.of_nat (occurrences its it))) (map (modf_member d) (fresh_members its)).
+Proof. exact modf_member_fresh. Qed.
+
 Print Assumptions C15_sum.
 Print Assumptions C15_history_free.
 Print Assumptions C15_cores_independent.
 Print Assumptions C15_free_params.
 Print Assumptions C15_fit_positions.
+Print Assumptions C15_sum_multiplicity.
+Print Assumptions C15_pool_multiplicity.
+Print Assumptions C15_free_params_count_of_expr.
